@@ -198,9 +198,6 @@ theorem FInv.loopRaise {s : LState} (h : FInv s) (hp : finPc s.pc = false) (e : 
     FInv (raiseFin s e) :=
   h.empty (Or.inl hp) rfl (by show some e ≠ some Raised.envFin; intro hc; injection hc with hc; exact he hc)
 
-theorem pcne {p q : Pc} (h : (p == q) = false) : p ≠ q := by
-  intro hc; subst hc; simp at h
-
 /-- a step of the `finally` block after the stop loop -/
 theorem FInv.after {s s' : LState} (h : FInv s) (hf : finPc s.pc = true) (hsl : stopLoopPc s.pc = false)
     (hnd : s.pc ≠ .done)
